@@ -87,3 +87,7 @@ package forward
 
 //@ census[C03] crypto.DeriveSessionKey in (*Handler).handleStreamOpenAsync
 //@ census[C03] crypto.ComputeECDH in (*Handler).handleStreamOpenAsync
+
+// C04: a session key is never wiped while tunnel code of this package may still seal data with it (a wiped key is
+// all-zero, i.e. known to every transit): no function of this package zeroes a session key.
+//@ census[C04] crypto.(*SessionKey).Zero in -
